@@ -3288,6 +3288,7 @@ static void thread_main_sched_func(void *arg)
             ABTI_ythread *p_waiter = p_sched->p_replace_waiter;
             ABTI_sched *p_new_sched = p_sched->p_replace_sched;
             /* Set this scheduler as a main scheduler */
+            ABTD_atomic_relaxed_store_uint32(&p_new_sched->request, 0);
             p_new_sched->used = ABTI_SCHED_MAIN;
             /* Take the ULT of the current main scheduler and use it for the new
              * scheduler. */
